@@ -108,7 +108,10 @@ pub fn generate(ch: &mut Chunker, prop: &str, thorough: bool, seed: u64, replays
         "C12" => gen_c12(ch, &mut r, thorough, scale),
         "C01" => gen_wrap_family(ch, &mut r, "C01", thorough, scale),
         "C02" => gen_wrap_family(ch, &mut r, "C02", thorough, scale),
-        "C07" => gen_wrap_family(ch, &mut r, "C07", thorough, scale),
+        "C07" => {
+            crate::props2::gen_frags(ch, &mut r, "C07", thorough, scale);
+            gen_wrap_family(ch, &mut r, "C07", thorough, scale);
+        }
         "C08" => {
             gen_wrap_family(ch, &mut r, "C08", thorough, scale);
             crate::props2::gen_c08_pairs(ch, &mut r, scale);
